@@ -87,6 +87,9 @@ def check_property_file(pid):
         axioms.append(m.group(1).strip())
     printed = len(re.findall(r'^\s*Print Assumptions', src, re.M))
     bad = re.findall(r'\b(Admitted|admit|Axiom|Parameter|Conjecture)\b', src)
+    if ok and (axioms or closed != printed):
+        # a theorem that depends on an axiom is not accepted: the trusted base (DESIGN.md 7) names none
+        ok = False
     return dict(ok=ok and not bad, obligations=len(theorems), discharged=len(theorems) if ok and not bad else 0,
                 theorems=theorems, closed=closed, printed=printed, axioms=axioms, log=p.stdout[-3000:],
                 cmd='make -C coq -j%d && (cd coq && %s)' % (NPROC, cmd))
@@ -94,8 +97,8 @@ def check_property_file(pid):
 
 def scan_forbidden():
     """no Admitted/admit/Axiom/... anywhere in the development"""
-    p = sh(r"grep -rnE '\b(Admitted|admit|Axiom|Parameter|Conjecture|Unset Guard|bypass_check|Admit Obligations)\b' "
-           r"--include='*.v' . || true", cwd=COQ)
+    p = sh(r"grep -rnE '\b(Admitted|admit|Axiom|Parameter|Conjecture|Unset Guard|Unset Positivity|Unset Universe|bypass_check|Admit Obligations|type-in-type|impredicative-set)\b' "
+           r"--include='*.v' --include='_CoqProject' . || true", cwd=COQ)
     return [l for l in p.stdout.splitlines() if l.strip()]
 
 
